@@ -345,6 +345,32 @@ pub fn ref_leapfrog(t: &GTarget, x: &[f64], p: &[f64], eps: f64, l: usize) -> (V
     (x, p)
 }
 
+/// largest gradient component met along the reference trajectory (start and end of every step)
+pub fn ref_leapfrog_gmax(t: &GTarget, x: &[f64], p: &[f64], eps: f64, l: usize) -> f64 {
+    let mut x = x.to_vec();
+    let mut p = p.to_vec();
+    let mut gmax = t.grad(&x).iter().fold(0.0f64, |a, b| a.max(b.abs()));
+    for _ in 0..l {
+        let g = t.grad(&x);
+        for i in 0..x.len() {
+            p[i] += 0.5 * eps * g[i];
+        }
+        for i in 0..x.len() {
+            x[i] += eps * p[i];
+        }
+        let g = t.grad(&x);
+        gmax = gmax.max(g.iter().fold(0.0f64, |a, b| a.max(b.abs())));
+        for i in 0..x.len() {
+            p[i] += 0.5 * eps * g[i];
+        }
+    }
+    if gmax.is_nan() {
+        f64::INFINITY
+    } else {
+        gmax
+    }
+}
+
 pub fn hamiltonian(t: &GTarget, x: &[f64], p: &[f64]) -> f64 {
     -t.logp(x) + 0.5 * p.iter().map(|v| v * v).sum::<f64>()
 }
